@@ -354,6 +354,8 @@ class Pt:
 def a_required(a: int) -> int: CALLS.append(("a_required", a)); return a
 def a_default(a: int = 3) -> int: CALLS.append(("a_default", a)); return a
 def a_none(a: Optional[int] = None) -> Optional[int]: CALLS.append(("a_none", a)); return a
+def a_opt_default(a: Optional[int] = 5) -> Optional[int]: CALLS.append(("a_opt_default", a)); return a
+def a_opt_list(a: Optional[List[int]] = [1]) -> int: CALLS.append(("a_opt_list", a)); return -1 if a is None else len(a)
 _UNSER = object()
 def a_unser(a: int = _UNSER) -> bool: CALLS.append(("a_unser", a)); return a is _UNSER
 def a_obj_default(a: Pt = Pt(5)) -> int: CALLS.append(("a_obj_default", a)); return a.x
@@ -467,7 +469,7 @@ def world_checks(st: infra.Stats):
     def viol(kind, what, **sig):
         st.violation({"label": "world", "signature": dict({"kind": kind}, **sig), "what": what[:500]})
 
-    ops = ["a_required", "a_default", "a_none", "a_unser", "a_obj_default", "a_list_default", "a_undefined", "a_enum_default", "a_two", "a_constrained", "in_list_default", "by_id"]
+    ops = ["a_required", "a_default", "a_none", "a_opt_default", "a_opt_list", "a_unser", "a_obj_default", "a_list_default", "a_undefined", "a_enum_default", "a_two", "a_constrained", "in_list_default", "by_id"]
     built = {}
     for name in ops:
         st.case("world", "signature", name)
@@ -482,6 +484,8 @@ def world_checks(st: infra.Stats):
         "a_required": {"a": "Int!"},
         "a_default": {"a": "Int!"},
         "a_none": {"a": "Int"},
+        "a_opt_default": {"a": "Int"},
+        "a_opt_list": {"a": "[Int!]"},
         "a_unser": {"a": "Int"},
         "a_obj_default": {"a": "PtInput!"},
         "a_list_default": {"a": "[Int!]!"},
@@ -503,6 +507,15 @@ def world_checks(st: infra.Stats):
         ("a_default", "{ aDefault }", {"aDefault": 3}, ("a_default", 3)),
         ("a_default", "{ aDefault(a: 4) }", {"aDefault": 4}, ("a_default", 4)),
         ("a_none", "{ aNone }", {"aNone": None}, ("a_none", None)),
+        ("a_none", "{ aNone(a: null) }", {"aNone": None}, ("a_none", None)),
+        ("a_none", "{ aNone(a: 2) }", {"aNone": 2}, ("a_none", 2)),
+        # an explicit null is a value (deserialize(Optional[int], None) == None), not an omission
+        ("a_opt_default", "{ aOptDefault }", {"aOptDefault": 5}, ("a_opt_default", 5)),
+        ("a_opt_default", "{ aOptDefault(a: null) }", {"aOptDefault": None}, ("a_opt_default", None)),
+        ("a_opt_default", "{ aOptDefault(a: 2) }", {"aOptDefault": 2}, ("a_opt_default", 2)),
+        ("a_opt_list", "{ aOptList }", {"aOptList": 1}, ("a_opt_list", [1])),
+        ("a_opt_list", "{ aOptList(a: null) }", {"aOptList": -1}, ("a_opt_list", None)),
+        ("a_opt_list", "{ aOptList(a: [1, 2]) }", {"aOptList": 2}, ("a_opt_list", [1, 2])),
         ("a_unser", "{ aUnser }", {"aUnser": True}, ("a_unser", m._UNSER)),
         ("a_unser", "{ aUnser(a: 7) }", {"aUnser": False}, ("a_unser", 7)),
         ("a_obj_default", "{ aObjDefault }", {"aObjDefault": 5}, ("a_obj_default", m.Pt(5))),
